@@ -29,30 +29,3 @@ func (v *VerifC07Membership) Get() pb.Membership { return v.m.get() }
 
 // Set wraps membership.set.
 func (v *VerifC07Membership) Set(n pb.Membership) { v.m.set(n) }
-
-// IsEmpty wraps membership.isEmpty.
-func (v *VerifC07Membership) IsEmpty() bool { return v.m.isEmpty() }
-
-// GetHash wraps membership.getHash.
-func (v *VerifC07Membership) GetHash() uint64 { return v.m.getHash() }
-
-// Rules evaluates the ten predicates handleConfigChange combines, in the order
-// of the conjunction, without changing the membership.
-func (v *VerifC07Membership) Rules(cc pb.ConfigChange) [10]bool {
-	m := &v.m
-	return [10]bool{
-		m.isUpToDate(cc),
-		m.isAddRemovedNode(cc),
-		m.isAddExistingMember(cc),
-		m.isAddNodeAsNonVoting(cc),
-		m.isAddNodeAsWitness(cc),
-		m.isAddWitnessAsNode(cc),
-		m.isAddWitnessAsNonVoting(cc),
-		m.isAddNonVotingAsWitness(cc),
-		m.isDeleteOnlyNode(cc),
-		m.isInvalidNonVotingPromotion(cc),
-	}
-}
-
-// VerifC07AddressEqual wraps addressEqual.
-func VerifC07AddressEqual(a string, b string) bool { return addressEqual(a, b) }
